@@ -281,6 +281,9 @@ func (e *enc) applyContract(fc *FuncContract, callee *ssa.Function, c *ssa.CallC
 			vars[n] = args[i]
 		}
 	}
+	if !c.IsInvoke() && c.StaticCallee() == nil {
+		vars["callee"] = e.val(c.Value) // the function value of a dynamic call, for functype contracts
+	}
 	// parameters of the callee renamed since its contract was written
 	for old, news := range e.v.renamesFor(callee) {
 		for _, nn := range news {
@@ -353,6 +356,15 @@ func (e *enc) applyContract(fc *FuncContract, callee *ssa.Function, c *ssa.CallC
 	}
 	for _, en := range fc.Ensures {
 		e.assumeHere(e.trBool(en.E, post, "ensures of "+fc.Name))
+	}
+	for _, en := range fc.Defines {
+		// definitional clause: names the result as a function of the arguments (determinism of a function whose frame
+		// is proved empty); assumed here, never proved from the body, reported among the assumptions
+		e.assumeHere(e.trBool(en.E, post, "defines of "+fc.Name))
+		if e.usedTrusted == nil {
+			e.usedTrusted = map[string]bool{}
+		}
+		e.usedTrusted["assumed: "+fc.Name+" is deterministic (its result is named by spec functions of its arguments: "+clauseName(en)+")"] = true
 	}
 	return res
 }
